@@ -6,6 +6,7 @@
    `sort=False` makes `toposort_flatten` iterate every layer (a python `set`) in hash order: the
    order inside one layer is an INPUT of the model (`perm`), any permutation of the layer. *)
 From Coq Require Import List Arith Bool.
+From Cobald Require Export kit.SetKit.
 Import ListNotations.
 
 Definition name := nat.
@@ -13,8 +14,6 @@ Definition name := nat.
 Inductive res (E A : Type) : Type := Ok (a : A) | Err (e : E).
 Arguments Ok {E A} a.
 Arguments Err {E A} e.
-
-Definition mem (x : name) (l : list name) : bool := existsb (Nat.eqb x) l.
 
 Definition dict := list (name * list name).
 Definition keys (d : dict) : list name := map fst d.
